@@ -1177,7 +1177,11 @@ class Client(BaseClient):
                     raise
         if ip in ("0.0.0.0", None):
             ip = self.server_host
-        reader, writer = await self._open_connection(ip, port)
+        # the endpoint comes from the server's reply and may never answer
+        reader, writer = await asyncio.wait_for(
+            self._open_connection(ip, port),
+            self.connection_timeout,
+        )
         return reader, writer
 
     @async_enterable
